@@ -37,7 +37,8 @@ BOUND = {k: v + "; plus: " + "list names with a dot next to their stem; a user-w
 
 LISTS = ["c", "c1", "d"]
 VARIANTS = ["plain", "filter", "rand", "randseed", "randseedref", "multi", "rank", "or_other", "shared", "search",
-            "multi_or_other", "unused", "fromrepeat", "fromrepeat-filter", "randfalse", "randfalseseed", "randfilter", "multirandfalse", "randseedexpr", "randseedexpr2"]
+            "multi_or_other", "unused", "fromrepeat", "fromrepeat-filter", "randfalse", "randfalseseed", "randfilter", "multirandfalse", "randseedexpr", "randseedexpr2", "search_rand", "search_multi"]
+REJECT_VARS = {"search_rand", "search_multi"}  # a search() list may not be shared with a select that is not using search()
 
 
 def gen_lists(tier):
@@ -207,6 +208,9 @@ def build_lists(case):
         qs.append({"type": "select_multiple c", "name": "s2", "label": "S2", "choice_filter": "y != ''"})
     elif v == "search":
         sel["appearance"] = "search('f')"
+    elif v in ("search_rand", "search_multi"):
+        sel["appearance"] = "search('f')"
+        qs.append({"type": "select_one c", "name": "s2", "label": "S2", "parameters": "randomize=true"} if v == "search_rand" else {"type": "select_multiple c", "name": "s2", "label": "S2"})
     elif v == "unused":
         qs = [qs[0]]
     elif v in ("fromrepeat", "fromrepeat-filter"):
@@ -287,6 +291,12 @@ def check_lists(case, wb, out, viol):
                     el = itx.get(f"{ln}-{idx}", {}).get(lg, {}).get(None)
                     if el is None or (el.text or "") != c[key]:
                         viol.append((f"choice-itext:{v}", f"{ln}-{idx} {lg}: {None if el is None else el.text!r} want {c[key]!r}"))
+    for el, tag, ref, anc in obs.body_controls():
+        if tag in ("select", "select1", "rank"):
+            for it in el.findall(O.X + "itemset"):
+                for iid in re.findall(r"instance\('([^']*)'\)", it.get("nodeset") or ""):
+                    if iid not in insts:
+                        viol.append((f"itemset-on-undeclared-instance:{v}", f"{ref}: {it.get('nodeset')}"))
     if v == "unused":
         return
     base = "/data" if case["place"] == "top" else "/data/w"
@@ -522,14 +532,14 @@ def check_one(case):
     ntr = len(wb["survey"]) + len(wb.get("choices", ())) + len(wb.get("external_choices", ()))
     if out.kind == "crash":
         return {"outcome": "crash", "nt": False, "viol": [], "tr": ntr}
-    er = k == "ext" and expect_ext(case)[1]
+    er = (k == "ext" and expect_ext(case)[1]) or (k == "lists" and case["var"] in REJECT_VARS)
     if out.kind == "reject":
         if er:
             return {"outcome": "reject-expected", "nt": True, "viol": [], "tr": ntr}
         return {"outcome": "reject", "nt": False, "viol": [], "tr": ntr, "unexp": True, "why": out.msg[:200]}
     viol = []
     if er:
-        viol.append(("instance-id-clash-accepted", str(case["feats"])))
+        viol.append(("instance-id-clash-accepted", str(case["feats"])) if k == "ext" else (f"search-list-shared-accepted:{case['var']}", ""))
     else:
         {"lists": check_lists, "ext": check_ext, "csv": check_csv}[k](case, wb, out, viol)
     return {"outcome": "ok", "nt": not viol, "viol": viol, "tr": ntr}
